@@ -42,10 +42,14 @@ def setup_worker():
 @st.composite
 def case_st(draw, tier):
     kind = draw(st.sampled_from(["nano", "nano", "third"]))
-    flags = {"bitmaps": draw(st.sampled_from([False, False, True])), "colr_version": draw(st.sampled_from([1, 1, 0])), "keep_glyph_names": draw(st.booleans())}
+    flags = {"bitmaps": draw(st.sampled_from([False, True])), "colr_version": draw(st.sampled_from([1, 1, 0])), "keep_glyph_names": draw(st.booleans())}
     if kind == "nano":
         fmt = draw(st.sampled_from(["glyf_colr_1", "glyf_colr_1", "glyf_colr_0", "picosvg", "picosvg", "untouchedsvg", "cff_colr_1"]))
         vc = draw(c01.vector_case([fmt], "quick", max_sources=4, transforms=False, p_grad=0.35))
+        if len(vc["sources"]) >= 3 and draw(st.sampled_from([False, False, True])):
+            # a glyph that paints nothing between glyphs that do: colour glyph ids with a hole (no bitmap, no SVG content for it)
+            k = draw(st.integers(1, len(vc["sources"]) - 2))
+            vc["sources"][k] = dict(vc["sources"][k], model=dict(vc["sources"][k]["model"], nodes=[]))
         vc["cfg"].update(upem=1024, ascender=950, descender=-250, width=draw(st.sampled_from([1275, 0, 1000])), reuse_tolerance=0.1, clipbox_quantization=None)
         return {"kind": "nano", "fmt": fmt, "vc": vc, "flags": flags}
     third = draw(st.one_of(c13.font_case().filter(lambda c: not c["unsupported"]), c13.shared_pool_case()))
@@ -53,6 +57,7 @@ def case_st(draw, tier):
         third["own_outline"] = True
         solid = {"Format": 2, "PaletteIndex": 0, "Alpha": 1.0}
         third["paints"]["c0"] = [("c0", 0), ("tri", 1)] if third["version"] == 0 else {"Format": 1, "Layers": [{"Format": 10, "Glyph": "c0", "Paint": solid}, {"Format": 10, "Glyph": "tri", "Paint": dict(solid, PaletteIndex=1)}]}
+    third["interleave"] = draw(st.booleans())
     return {"kind": "third", "third": third, "flags": flags, "space": draw(st.sampled_from([True, True, False])), "layout": draw(st.booleans()), "post3": draw(st.booleans())}
 
 
